@@ -54,7 +54,7 @@ def replay(hist, fmap, mmap, pools, tag, rng):
             rec.construct(fmap[op[1]], mmap[(op[1], op[2])], with_meta=False)
         else:
             fam, member, _ = rec.insts[op[1] - 1]
-            rec.eval(op[1], pools[(fam, member)][op[2] - 1], reuse=rng.random() < 0.35)
+            rec.eval(op[1], pools[(fam, member)][op[2] - 1], reuse=rng.random() < 0.35, holder=rng.choice(["fresh", "fresh", "reused", "prefilled"]))
     return rec
 
 
@@ -115,7 +115,7 @@ def run(ctx):
                 k = rng.randint(1, len(rec.insts))
                 fam, m, _ = rec.insts[k - 1]
                 fid = rng.choice(["obj", "obj", 0, 1, 2]) if fam == "StronginC3" else "obj"
-                rec.eval(k, rng.choice(pools[(fam, m)]), fid, reuse=rng.random() < 0.35)
+                rec.eval(k, rng.choice(pools[(fam, m)]), fid, reuse=rng.random() < 0.35, holder=rng.choice(["fresh", "fresh", "reused", "prefilled"]))
         recs.append(rec)
     fails, stats = validate(ctx, recs, "c15")
     for f in fails:
